@@ -40,7 +40,7 @@ type DocScript struct {
 	Reprobe     bool        `json:"reprobe"`   // after the pipeline look every scripted address up again and log whether the resolver was asked
 }
 
-func init() { kinds["doc"] = runDoc }
+func init() { kinds["doc"] = runDoc; kinds["docstress"] = runDocStress }
 
 func ipOf(b []int) net.IP {
 	if len(b) == 0 {
@@ -213,6 +213,48 @@ func runDocInner(t *testing.T, s *Scenario) []wire.Event {
 	w.LogEvent("Return", "ok", panicked == "", "panic", panicked, "err", errInfo(nil), "has_result", true,
 		"doc", milli("", tree1), "doc2", milli("", tree2), "rt_equal", reflect.DeepEqual(tree1, tree2) && len(j1) > 0, "keys", keys, "ids", ids, "dns_calls", dc,
 		"hops", []hopOut{}, "src", "", "sport", 0, "dst", "", "dport", 0,
+		"goroutines", 0, "gsample", "", "opened", 0, "closed_once", 0, "bad_handles", []string{}, "accepts", 0)
+	return w.Events()
+}
+
+// runDocStress: G goroutines finish N result documents each at the same time (what concurrent requests of the HTTP server do);
+// every identifier handed out is logged in one line.
+func runDocStress(t *testing.T, s *Scenario) []wire.Event {
+	num := func(k string) int { v, _ := s.Extra[k].(float64); return int(v) }
+	g, n, runs := num("g"), num("n"), num("runs")
+	w := wire.New(wire.Script{})
+	w.LogEvent("Params", "variant", "docstress", "entry", "docstress", "strict", false, "min", 0, "max", 0, "timeout_us", 0, "delay_us", 0, "poll_us", 0,
+		"target", "", "port", 0, "cancel_us", 0, "filter", false, "g", g, "n", n, "runs", runs)
+	got := make([][]string, g)
+	gate := make(chan struct{})
+	var wg sync.WaitGroup
+	for ci := 0; ci < g; ci++ {
+		wg.Add(1)
+		go func(ci int) {
+			defer wg.Done()
+			<-gate
+			for i := 0; i < n; i++ {
+				res := &result.Results{Protocol: "udp"}
+				for r := 0; r < runs; r++ {
+					res.Traceroute.Runs = append(res.Traceroute.Runs, result.TracerouteRun{
+						Hops: []*result.TracerouteHop{{TTL: 1, IPAddress: net.IPv4(8, 8, 8, 8).To4(), RTT: 1}}})
+				}
+				res.Normalize()
+				got[ci] = append(got[ci], res.TestRunID)
+				for _, r := range res.Traceroute.Runs {
+					got[ci] = append(got[ci], r.RunID)
+				}
+			}
+		}(ci)
+	}
+	close(gate)
+	wg.Wait()
+	all := []string{}
+	for _, l := range got {
+		all = append(all, l...)
+	}
+	w.LogEvent("Got", "op", "ids", "ids", all)
+	w.LogEvent("Return", "ok", true, "panic", "", "err", errInfo(nil), "has_result", false, "hops", []hopOut{}, "src", "", "sport", 0, "dst", "", "dport", 0,
 		"goroutines", 0, "gsample", "", "opened", 0, "closed_once", 0, "bad_handles", []string{}, "accepts", 0)
 	return w.Events()
 }
